@@ -128,7 +128,11 @@ contract(SH + ".shex_graph",
 contract(SH + ".profile_graph", params={"string_output": Bool, "output_file": O}, returns=O,
     raises=[("ValueError", "(not string_output) and output_file is None")], modifies=["*"], props=["C04"],
     note="call shape of _check_correct_output_params (3 parameters) at this call site")
-contract("shexer.io.profile.formater.abstract_profile_serializer:AbstractProfileSerializer.__init__@assumed", params={}, verify=False)
+APS = "shexer.io.profile.formater.abstract_profile_serializer:AbstractProfileSerializer"
+ProfSer = schema("ProfSer", [APS], {})
+contract(APS + ".__init__", params={"profile_obj": Opt(Int)}, **PIPE)
+contract(APS + ".get_string_representation", params={}, returns=O, **PIPE)
+contract(APS + ".write_profile_to_file", params={"target_file": O}, returns=O, **PIPE)
 
 # ---- must-fail canaries: deliberately wrong reference predicates that the verifier has to refute ------------------
 contract(SH + "._check_compression_mode@canary",
